@@ -15,6 +15,10 @@ EXTENDS Naturals, Sequences, FiniteSets, TLC, TLCExt, Json, IOUtils
 R == INSTANCE Retarget WITH Abis <- {}, MaxUses <- 0, Cat <- "full", MapNames <- {},
                             WithPatch <- FALSE, Emit <- FALSE, cfg <- 0, st <- 0
 
+\* DelSym!Expected judges the symbol tables of the retarget-then-delete history
+D == INSTANCE DelSym WITH Mode <- "tables", Fmts <- {}, K1 <- 0, K2 <- 0, K3 <- 0, NVer <- 0,
+                          ReqNames <- {}, Emit <- FALSE, cfg <- 0, st <- 0
+
 Traces == ndJsonDeserialize(IOEnv.TRACE_FILE)
 VARIABLE tid
 
@@ -41,6 +45,20 @@ Abs(p) ==
                exp |-> p.exp, aux |-> p.aux, tabs |-> p.tabs, nprox |-> p.nprox,
                symsfull |-> p.syms, sxo |-> {<<e.blk, e.o, e.sc, e.nh>> : e \in Range(p.sx)}] ]
 
+\* the same projection as a DelSym module (tables; mention relations are passed in)
+AbsD(p, sx, cfi, fwd) ==
+  [ syms   |-> {s.n : s \in Range(p.syms)},
+    esi    |-> {<<q[1], q[2]>> : q \in Range(p.esi)},
+    tix    |-> {<<q[1], q[2]>> : q \in Range(p.tix)},
+    hasver |-> p.ver.has,
+    vents  |-> {[s |-> e.s, id |-> e.id, h |-> e.h] : e \in Range(p.ver.ents)},
+    vdefs  |-> {[id |-> d.id, names |-> d.names, flags |-> d.flags] : d \in Range(p.ver.defs)},
+    vreqs  |-> UNION {{[lib |-> r.lib, id |-> v.id, v |-> v.v] : v \in Range(r.vers)} : r \in Range(p.ver.reqs)},
+    vlibs  |-> {r.lib : r \in Range(p.ver.reqs)},
+    fn     |-> {<<f.u, f.name>> : f \in {x \in Range(p.fns) : x.hasn}},
+    imp    |-> p.imp, exp |-> p.exp,
+    fwd    |-> fwd, cfi |-> cfi, sx |-> sx, rest |-> <<>> ]
+
 CaseCfg(c) ==
   [abi |-> c.abi, pie |-> c.pie, kinds |-> c.kinds, reqs |-> c.reqs,
    uses |-> [i \in DOMAIN c.uses |-> [c.uses[i] EXCEPT !.at = Range(c.uses[i].at)]]]
@@ -59,7 +77,7 @@ Sig(M) ==
     fwd  |-> M.fwd,
     sym  |-> {<<s.n, s.k, SymsAt(M, s.r)>> : s \in {x \in M.syms : x.n \in Core}},
     none |-> {s.n : s \in {x \in M.syms : x.k = "none"}},
-    cf   |-> {<<e.ty, e.c, SymsAt(M, e.t)>> : e \in {x \in M.edges : x.ty \in {"Branch", "Call"}}} ]
+    cf   |-> {<<e.ty, e.c, e.d, SymsAt(M, e.t)>> : e \in {x \in M.edges : x.ty \in {"Branch", "Call"}}} ]
 
 \* well-formed pre-state: one control-flow operand per block, every expression
 \* in exactly one block, return edges consistent with the calls (G4)
@@ -77,10 +95,16 @@ Ctx(t) ==
       map == R!MapOf(reqs)
       rules == R!Rules(t.case.abi, t.case.pie)
       conf == t.exc0 = "" /\ Sig(M) = Sig(R!Mod(c)) /\ WellFormed(M, t.pre)
-      outs == IF conf THEN R!Outcomes(M, reqs) ELSE {}
+      dels == t.case.del                      \* <<name, force>> deletions registered after the retargets
+      outs == IF conf THEN R!OutcomesD(M, reqs, rules, dels) ELSE {}
+      ok == conf /\ outs = {""}
   IN  [t |-> t, M |-> M, N |-> N, reqs |-> reqs, map |-> map, rules |-> rules,
+       dels |-> dels, del |-> R!DelSet(dels),
        conf |-> conf, outs |-> outs,
-       done |-> conf /\ outs = {""} /\ t.exc = ""]
+       \* E1: the retargeted module, E: the final module (retargets, then deletions)
+       E1 |-> IF ok THEN R!Expected(M, map, rules) ELSE M,
+       E |-> IF ok THEN R!Final(M, reqs, rules, dels) ELSE M,
+       done |-> ok /\ t.exc = ""]
 
 (***************************************************************************)
 (* Clauses                                                                 *)
@@ -93,19 +117,20 @@ KeyFwd(X) == {p \in X.M.fwd : p[2] \in R!Keys(X.map)}
 
 \* what each former mention of a key must say now: symbol and addend (not attributes)
 Say(e) == <<e.blk, e.o, e.f, e.s1, e.s2, e.add>>
-ExpKeySay(X) ==
-  [sx |-> {Say([e EXCEPT !.s1 = R!To(X.map, e.s1)]) : e \in KeySx(X)},
-   cfi |-> {[c EXCEPT !.sym = R!To(X.map, c.sym)] : c \in KeyCfi(X)},
-   fwd |-> {<<p[1], R!To(X.map, p[2])>> : p \in KeyFwd(X)}]
-ObsKeySay(X) ==
-  [sx |-> {Say(e) : e \in {x \in X.N.sx : Site(x) \in {Site(k) : k \in KeySx(X)}}},
-   cfi |-> {c \in X.N.cfi : CSite(c) \in {CSite(k) : k \in KeyCfi(X)}},
-   fwd |-> {p \in X.N.fwd : p[1] \in {k[1] : k \in KeyFwd(X)}}]
+\* (read off the expected final module X.E, so that a deletion registered in the same
+\* context is accounted for; without deletions X.E = Retarget!Expected(X.M))
+KeySay(X, M) ==
+  [sx |-> {Say(e) : e \in {x \in M.sx : Site(x) \in {Site(k) : k \in KeySx(X)}}},
+   cfi |-> {c \in M.cfi : CSite(c) \in {CSite(k) : k \in KeyCfi(X)}},
+   fwd |-> {p \in M.fwd : p[1] \in {k[1] : k \in KeyFwd(X)}}]
+ExpKeySay(X) == KeySay(X, X.E)
+ObsKeySay(X) == KeySay(X, X.N)
 C18_Complete(X) == ObsKeySay(X) = ExpKeySay(X)
 
 \* attributes at the former mentions of keys
-ExpKeyAttrs(X) == {<<e.blk, e.o, R!ExpSxOne(X.M, X.map, X.rules, e).at>> : e \in KeySx(X)}
-ObsKeyAttrs(X) == {<<e.blk, e.o, e.at>> : e \in {x \in X.N.sx : Site(x) \in {Site(k) : k \in KeySx(X)}}}
+KeyAttrs(X, M) == {<<e.blk, e.o, e.at>> : e \in {x \in M.sx : Site(x) \in {Site(k) : k \in KeySx(X)}}}
+ExpKeyAttrs(X) == KeyAttrs(X, X.E)
+ObsKeyAttrs(X) == KeyAttrs(X, X.N)
 C18_Attrs(X) == ObsKeyAttrs(X) = ExpKeyAttrs(X)
 
 \* everything that is not a mention of a key, and is not an edge, is untouched
@@ -113,23 +138,44 @@ Others(X, M) ==
   [sx |-> {e \in M.sx : Site(e) \notin {Site(k) : k \in KeySx(X)}},
    cfi |-> {c \in M.cfi : CSite(c) \notin {CSite(k) : k \in KeyCfi(X)}},
    fwd |-> {p \in M.fwd : p[1] \notin {k[1] : k \in KeyFwd(X)}},
-   syms |-> M.syms, fns |-> M.fns, rets |-> M.rets, rest |-> M.rest]
-C18_Precise(X) == Others(X, X.N) = Others(X, X.M)
+   syms |-> M.syms, fns |-> M.fns, rets |-> M.rets,
+   \* with deletions the symbol tables are judged by C18_ThenDeleted instead
+   rest |-> IF X.del = {} THEN M.rest
+            ELSE [M.rest EXCEPT !.esi = <<>>, !.tix = <<>>, !.imp = <<>>, !.exp = <<>>, !.symsfull = <<>>]]
+C18_Precise(X) == Others(X, X.N) = Others(X, X.E)
 PreciseDiff(X) ==
-  LET a == Others(X, X.M)  b == Others(X, X.N)
+  LET a == Others(X, X.E)  b == Others(X, X.N)
   IN  [sx |-> SetDiff(a.sx, b.sx), cfi |-> SetDiff(a.cfi, b.cfi), fwd |-> SetDiff(a.fwd, b.fwd),
        syms |-> SetDiff(a.syms, b.syms), fns |-> a.fns = b.fns, rets |-> a.rets = b.rets,
        blocks |-> a.rest.blocks = b.rest.blocks, esi |-> a.rest.esi = b.rest.esi,
        aux |-> a.rest.aux = b.rest.aux, tabs |-> a.rest.tabs = b.rest.tabs,
        restall |-> a.rest = b.rest]
 
-ExpNonRet(X) == R!ExpNonRet(X.M, X.map)
+ExpNonRet(X) == R!NonRet(X.E.edges)
 ObsNonRet(X) == R!NonRet(X.N.edges)
 C18_Edges(X) == ObsNonRet(X) = ExpNonRet(X)
 
-ExpRet(X) == R!G4(X.M, ExpNonRet(X))
+ExpRet(X) == R!RetFacts(X.E.edges)
 ObsRet(X) == R!RetFacts(X.N.edges)
 C18_Returns(X) == ObsRet(X) = ExpRet(X)
+
+\* retarget, then delete: the whole final module, symbol tables included, is
+\* DelSym!Expected applied to the retargeted module; it still serializes
+ThenDeletedExp(X) ==
+  LET d == D!Expected(AbsD(X.t.pre, X.E1.sx, X.E1.cfi, X.E1.fwd), X.del)
+  IN  [d EXCEPT !.fn = {p[2] : p \in @}]
+ThenDeletedObs(X) ==
+  LET d == AbsD(X.t.post, X.N.sx, X.N.cfi, X.N.fwd)
+  IN  [d EXCEPT !.fn = {p[2] : p \in @}]
+C18_ThenDeleted(X) ==
+  /\ ThenDeletedObs(X) = ThenDeletedExp(X)
+  /\ X.t.post.ser.ok /\ X.t.post.ser.dang = 0
+ThenDeletedDiff(X) ==
+  LET a == ThenDeletedExp(X)  b == ThenDeletedObs(X)
+  IN  [syms |-> SetDiff(a.syms, b.syms), esi |-> SetDiff(a.esi, b.esi), tix |-> SetDiff(a.tix, b.tix),
+       fn |-> SetDiff(a.fn, b.fn), imp |-> <<a.imp, b.imp>>, exp |-> <<a.exp, b.exp>>,
+       fwd |-> SetDiff(a.fwd, b.fwd), cfi |-> SetDiff(a.cfi, b.cfi), sx |-> SetDiff(a.sx, b.sx),
+       ser |-> X.t.post.ser]
 
 C18_Refusals(X) == X.t.exc \in X.outs
 C18_Completes(X) == X.t.exc = ""
@@ -166,6 +212,7 @@ KfTags(X, clause) ==
 Clauses(X) ==
   LET dC == X.conf /\ X.outs = {""}
       dR == X.conf /\ X.outs # {""}
+      dD == X.done /\ X.del # {}
   IN
   << <<"C18_Completes", dC, IF dC THEN C18_Completes(X) ELSE TRUE>>,
      <<"C18_Refusals",  dR, IF dR THEN C18_Refusals(X) ELSE TRUE>>,
@@ -173,7 +220,8 @@ Clauses(X) ==
      <<"C18_Attrs",     X.done, IF X.done THEN C18_Attrs(X) ELSE TRUE>>,
      <<"C18_Precise",   X.done, IF X.done THEN C18_Precise(X) ELSE TRUE>>,
      <<"C18_Edges",     X.done, IF X.done THEN C18_Edges(X) ELSE TRUE>>,
-     <<"C18_Returns",   X.done, IF X.done THEN C18_Returns(X) ELSE TRUE>> >>
+     <<"C18_Returns",   X.done, IF X.done THEN C18_Returns(X) ELSE TRUE>>,
+     <<"C18_ThenDeleted", dD, IF dD THEN C18_ThenDeleted(X) ELSE TRUE>> >>
 
 Diff(name, X) ==
   CASE name = "C18_Complete" -> [exp |-> ExpKeySay(X), obs |-> ObsKeySay(X)]
@@ -181,6 +229,7 @@ Diff(name, X) ==
     [] name = "C18_Precise" -> PreciseDiff(X)
     [] name = "C18_Edges" -> SetDiff(ExpNonRet(X), ObsNonRet(X))
     [] name = "C18_Returns" -> SetDiff(ExpRet(X), ObsRet(X))
+    [] name = "C18_ThenDeleted" -> ThenDeletedDiff(X)
     [] name = "C18_Refusals" -> [exc |-> X.t.exc, admissible |-> X.outs]
     [] OTHER -> [exc |-> X.t.exc, stage |-> X.t.stage]
 
